@@ -338,5 +338,39 @@ func Families(tier string) []Family {
 		}
 		fams = append(fams, f)
 	}
+
+	// complete: COMP_LINE words over a tree with aliases, suggested / valid values, static suggestions, help (C17)
+	{
+		f := Family{Name: "complete"}
+		toks := Ts("--f", "--fl", "--flag", "--p", "--profile", "--profile=", "--profile=p", "--level=", "--level=d", "-", "--",
+			"l", "lo", "log", "s", "show", "h", "help", "", "--lo", "x", "-fs", "-l")
+		for mode := 0; mode < 3; mode++ {
+			for variant := 0; variant < 2; variant++ {
+				c := Cfg{Mode: mode}
+				c.Nodes = []NodeCfg{rootNode(0, false), cmdNode("log", 1, 0, false, true), cmdNode("show", 1, 0, false, true), cmdNode("sub", 2, 0, false, true)}
+				c.Nodes[0].Fn = true
+				c.Nodes[0].Sugg = Ts("arg1", "sarg")
+				c.Nodes[1].Sugg = Ts("sub-log", "lower")
+				profile := opt("string", "profile", 1)
+				profile.Sugg = Ts("dev", "production", "staging")
+				level := opt("string", "level", 1, "l")
+				level.Valid = Ts("debug", "info")
+				c.Opts = []OptCfg{opt("bool", "flag", 1), opt("bool", "fleg", 1), profile, level, opt("bool", "lo", 2), opt("string", "s", 3), opt("bool", "f", 3)}
+				if variant == 1 {
+					c.Nodes[0].Ro = true
+					c.Nodes[1].Ro = true
+					c.Nodes[2].Ro = true
+					c.Nodes[3].Ro = true
+					c.Nodes[1].DynFn = true
+					c.Nodes[1].DynOut = Ts("dyn1", "zz")
+					c.Opts[0].Kind = "incr"
+					c.Prog = T("log") // the program is invoked under the name of one of its commands
+				}
+				c = WithHelp(c, "help", "?")
+				f.Defs = append(f.Defs, Def{Cfg: c, Tokens: toks, L: lim(tier, 2, 3), Comp: true})
+			}
+		}
+		fams = append(fams, f)
+	}
 	return fams
 }
